@@ -194,6 +194,11 @@ UNITS["C17"] = [
     _k("c17_glyph_limits_max_componentwise", "fontbe", _MET, ["fontbe::metrics_and_limits::GlyphLimits::max"], "complete", "all u16 triples; loop-free", "any a, b", "componentwise maximum"),
     _k("c17_unicode_ranges_table_well_formed", "fontbe", "fontbe/src/os2.rs", ["fontbe::os2::UNICODE_RANGES (precondition of add_unicode_range_bits' binary search)"], "complete",
        "the constant table (loop bounded by its length)", "-", "sorted by start, from <= to <= 0x10FFFF, pairwise disjoint, bit < 128"),
+    _k("c17_max_context_of_rule_is_exact", "fontbe", "fontbe/src/os2/max_context.rs", ["fontbe::os2::max_context::max_context_of_rule"], "complete",
+       "all input / lookahead counts whose context length fits u16; loop-free", "input + lookahead + 1 <= 65535",
+       "contextual -> input length; chained -> input + lookahead; reverse chained -> 1 + lookahead (the per-rule kernel of OS/2 usMaxContext)"),
+    _k("c17_max_context_without_layout_tables_is_zero", "fontbe", "fontbe/src/os2/max_context.rs", ["fontbe::os2::max_context::compute_max_context_value"], "complete", "no inputs", "-",
+       "no GSUB and no GPOS: usMaxContext is 0"),
     _k("c17_metrics_cover", "fontbe", _MET, [], "complete", "", "", "full / partial / no trimming and both clamps reachable", kind="cover"),
 ]
 
@@ -301,7 +306,7 @@ ASSUME = {
         "Rank obligations are bounded by word count (quick: <= 3 words = 192 rules; thorough: <= 5 words = 320 rules) with arbitrary word contents",
     ],
     "C17": [
-        "not under contract: update_composite_limits (HashMap + retain closure; unchecked u16 additions), composite and head bounding boxes (kurbo), x_avg_char_width, first/last char index, add_unicode_range_bits itself (HashSet<u32>: attempted, > 40 min) and code-page bits, max context - all read a Context or are hash-set code",
+        "not under contract: update_composite_limits (HashMap + retain closure; unchecked u16 additions), composite and head bounding boxes (kurbo), x_avg_char_width, first/last char index, add_unicode_range_bits itself (HashSet<u32>: attempted, > 40 min) and code-page bits, the max-context walk over the GSUB/GPOS tables (only its per-rule kernel is) - all read a Context, walk write-fonts tables or are hash-set code",
         "MetricsBuilder::build is bounded by glyph count (quick <= 5, thorough <= 8)",
     ],
     "C19": [
